@@ -354,8 +354,8 @@ def np_svd(A, full_matrices=True, compute_uv=True, hermitian=False):
         if all(sum(0 if _is_zero(B[i, j]) else 1 for i in range(mb)) <= 1 for j in range(nb)):
             rows = [i for i in range(mb) if any(not _is_zero(B[i, j]) for j in range(nb))]
             kb = min(mb, nb)
-            if len(rows) != kb:
-                continue                       # would need an orthonormal completion: not modelled
+            if len(rows) > kb:
+                continue
             items = []
             for i in rows:
                 nrm = Sym.lift(sum((Sym.lift(B[i, j]) * Sym.lift(B[i, j]) for j in range(nb)), Sym.const(0))).sqrt()
@@ -371,6 +371,38 @@ def np_svd(A, full_matrices=True, compute_uv=True, hermitian=False):
                 for j in range(nb):
                     if not _is_zero(B[i, j]):
                         Vb[l, j] = e * Sym.lift(B[i, j]) / nrm
+            # zero singular values: orthonormal completion (unused rows of U; for V a free
+            # column, or a 2-column vector orthogonal to one row inside its support)
+            zero_rows = [i for i in range(mb) if i not in rows]
+            free_cols = [j for j in range(nb) if all(_is_zero(B[i, j]) for i in range(mb))]
+            used_rows_for_completion = set()
+            okc = True
+            for l in range(len(items), kb):
+                Sb[l] = Sym.const(0)
+                Ub[zero_rows[l - len(items)], l] = Sym.const(1)
+                if free_cols:
+                    Vb[l, free_cols.pop(0)] = Sym.const(1)
+                    continue
+                done = False
+                for i in rows:
+                    if i in used_rows_for_completion:
+                        continue
+                    sup = [j for j in range(nb) if not _is_zero(B[i, j])]
+                    if len(sup) >= 2:
+                        j1, j2 = sup[0], sup[1]
+                        b1, b2 = Sym.lift(B[i, j1]), Sym.lift(B[i, j2])
+                        nn = (b1 * b1 + b2 * b2).sqrt()
+                        Vb[l, j1] = b2 / nn
+                        Vb[l, j2] = -b1 / nn
+                        if len(sup) > 2:
+                            okc = False          # not orthogonal to the full row unless support is 2
+                        used_rows_for_completion.add(i)
+                        done = True
+                        break
+                if not done:
+                    okc = False
+            if not okc:
+                continue
             if transposed:
                 return Vb.T.copy(), Sb, Ub.T.copy()
             return Ub, Sb, Vb
